@@ -15,8 +15,10 @@ R-C09.2  transfer: `apply_bb` of both analyses is interpreted on all used / assi
          the single return expression.)
 R-C09.3  join: definite = intersection of first components, maybe = union of second ones,
          empty join = the entry value; liveness join = union; `eq` is set equality.
-R-C09.4  extremal values: definite assignment starts from all variables (greatest
-         fixpoint); liveness starts empty except for borrowed variables.
+R-C09.4  extremal values and set-up, interpreted: AssignmentAnalysis.__init__/initial (definite assignment starts from ALL
+         variables), LivenessAnalysis.__init__/initial, and CFG.analyze on a four-block CFG with a dead block (statistics for every
+         block, locals from all blocks, liveness seeded with the borrowed variables, both analyses over all blocks incl.
+         unreachable ones, results stored) -- c09_analyze.py; text shapes only as fallback.
 R-C09.1  (fallback for R-C09.7) worklist completeness: one abstract iteration of each `run` loop body is
          interpreted (edge lists as symbolic tokens) for include_unreachable in {F,T}; the
          set of edges *read* to recompute a block must be the inverse of the set of edges
@@ -418,41 +420,44 @@ def run(ctx: Ctx) -> None:
                       "changed is not re-queued, so the result is stale and depends on the visit order")
 
     # ------------------------------------------------------------ R-C09.4 extremal values
-    ai = assn.methods.get("initial")
-    rets = [r.value for r in walk_no_nested(ai.node) if isinstance(r, ast.Return)] if ai else []
-    ok = len(rets) == 1 and isinstance(rets[0], ast.Tuple) and [ast.unparse(e) for e in rets[0].elts] == ["self.all_vars", "self.maybe_ass_before_entry"]
-    ctx.check(ok, "R-C09.4", f"{assn.qualname}.initial#greatest-fixpoint-start", ai.where if ai else assn.where, {"returns": [ast.unparse(r) for r in rets if r is not None]},
-              "definite assignment must start from *all* variables (greatest fixpoint), maybe-assignment from the entry set")
-    init = assn.methods.get("__init__")
-    av = [n for n in walk_no_nested(init.node) if isinstance(n, ast.Assign) and any(ast.unparse(t) == "self.all_vars" for t in n.targets)] if init else []
-    if len(av) != 1:
-        ctx.undecided("R-C09.4", f"{assn.qualname}#all_vars", assn.where, "all_vars assignment not found")
-    else:
-        txt = ast.unparse(av[0].value)
-        ok = "set.union" in txt and ".assigned" in txt and "stats.values()" in txt and "ass_before_entry" in txt and "intersection" not in txt
-        ctx.check(ok, "R-C09.4", f"{assn.qualname}#all_vars-covers-every-assigned-variable", f"{assn.module.rel}:{av[0].lineno}", {"all_vars": txt[:140]},
-                  "the top element of the definite-assignment lattice misses variables")
-    li = live.methods.get("initial")
-    rets = [r.value for r in walk_no_nested(li.node) if isinstance(r, ast.Return)] if li else []
-    ctx.check(len(rets) == 1 and ast.unparse(rets[0]) == "self._initial", "R-C09.4", f"{live.qualname}.initial", li.where if li else live.where,
-              {"returns": [ast.unparse(r) for r in rets if r is not None]}, "liveness must start from the configured (borrowed-variables) set")
-    an = idx.method("CFG", "analyze", "guppylang_internals.cfg.cfg")
-    ctx.saw("functions", an.qualname)
-    lcalls = [c for c in calls_in(an.node) if call_name(c) == "LivenessAnalysis"]
-    acalls = [c for c in calls_in(an.node) if call_name(c) == "AssignmentAnalysis"]
-    inout_def = [n for n in walk_no_nested(an.node) if isinstance(n, ast.Assign) and isinstance(n.value, ast.DictComp) and dotted(n.value.generators[0].iter) == "inout_vars"]
-    ok = len(lcalls) == 1 and len(acalls) == 1 and bool(inout_def)
-    if ok:
-        init_kw = [k for k in lcalls[0].keywords if k.arg == "initial"]
-        ok = bool(init_kw) and dotted(init_kw[0].value) == dotted(inout_def[0].targets[0]) and "exit_bb" in ast.unparse(inout_def[0].value)
-    ctx.check(ok, "R-C09.4", f"{an.qualname}#liveness-starts-with-borrowed-vars-only", an.where,
-              {"liveness_initial": [ast.unparse(k.value) for c in lcalls for k in c.keywords if k.arg == "initial"]},
-              "liveness is seeded with something other than the borrowed variables at the exit")
-    for c in lcalls + acalls:
-        inc = [k for k in c.keywords if k.arg == "include_unreachable"]
-        ctx.check(bool(inc) and isinstance(inc[0].value, ast.Constant) and inc[0].value.value is True, "R-C09.4",
-                  f"{an.qualname}#{call_name(c)}-includes-unreachable", an.where, {"include_unreachable": ast.unparse(inc[0].value) if inc else None},
-                  "unreachable code would not be analysed (its variables are checked nevertheless)")
-    rb = [c for c in calls_in(an.node) if call_name(c) in ("run", "run_unpacked") and [dotted(a) for a in c.args] == ["self.bbs"]]
-    ctx.check(len(rb) == 2, "R-C09.4", f"{an.qualname}#runs-over-all-blocks", an.where, {"runs": [ast.unparse(c)[-40:] for c in rb]},
-              "an analysis is not run over all blocks of the CFG")
+    from . import c09_analyze
+    if not c09_analyze.run(ctx):
+        # fallback (not interpretable): shape of the initial values and of the constructor calls in CFG.analyze
+        ai = assn.methods.get("initial")
+        rets = [r.value for r in walk_no_nested(ai.node) if isinstance(r, ast.Return)] if ai else []
+        ok = len(rets) == 1 and isinstance(rets[0], ast.Tuple) and [ast.unparse(e) for e in rets[0].elts] == ["self.all_vars", "self.maybe_ass_before_entry"]
+        ctx.check(ok, "R-C09.4", f"{assn.qualname}.initial#greatest-fixpoint-start", ai.where if ai else assn.where, {"returns": [ast.unparse(r) for r in rets if r is not None]},
+                  "definite assignment must start from *all* variables (greatest fixpoint), maybe-assignment from the entry set")
+        init = assn.methods.get("__init__")
+        av = [n for n in walk_no_nested(init.node) if isinstance(n, ast.Assign) and any(ast.unparse(t) == "self.all_vars" for t in n.targets)] if init else []
+        if len(av) != 1:
+            ctx.undecided("R-C09.4", f"{assn.qualname}#all_vars", assn.where, "all_vars assignment not found")
+        else:
+            txt = ast.unparse(av[0].value)
+            ok = "set.union" in txt and ".assigned" in txt and "stats.values()" in txt and "ass_before_entry" in txt and "intersection" not in txt
+            ctx.check(ok, "R-C09.4", f"{assn.qualname}#all_vars-covers-every-assigned-variable", f"{assn.module.rel}:{av[0].lineno}", {"all_vars": txt[:140]},
+                      "the top element of the definite-assignment lattice misses variables")
+        li = live.methods.get("initial")
+        rets = [r.value for r in walk_no_nested(li.node) if isinstance(r, ast.Return)] if li else []
+        ctx.check(len(rets) == 1 and ast.unparse(rets[0]) == "self._initial", "R-C09.4", f"{live.qualname}.initial", li.where if li else live.where,
+                  {"returns": [ast.unparse(r) for r in rets if r is not None]}, "liveness must start from the configured (borrowed-variables) set")
+        an = idx.method("CFG", "analyze", "guppylang_internals.cfg.cfg")
+        ctx.saw("functions", an.qualname)
+        lcalls = [c for c in calls_in(an.node) if call_name(c) == "LivenessAnalysis"]
+        acalls = [c for c in calls_in(an.node) if call_name(c) == "AssignmentAnalysis"]
+        inout_def = [n for n in walk_no_nested(an.node) if isinstance(n, ast.Assign) and isinstance(n.value, ast.DictComp) and dotted(n.value.generators[0].iter) == "inout_vars"]
+        ok = len(lcalls) == 1 and len(acalls) == 1 and bool(inout_def)
+        if ok:
+            init_kw = [k for k in lcalls[0].keywords if k.arg == "initial"]
+            ok = bool(init_kw) and dotted(init_kw[0].value) == dotted(inout_def[0].targets[0]) and "exit_bb" in ast.unparse(inout_def[0].value)
+        ctx.check(ok, "R-C09.4", f"{an.qualname}#liveness-starts-with-borrowed-vars-only", an.where,
+                  {"liveness_initial": [ast.unparse(k.value) for c in lcalls for k in c.keywords if k.arg == "initial"]},
+                  "liveness is seeded with something other than the borrowed variables at the exit")
+        for c in lcalls + acalls:
+            inc = [k for k in c.keywords if k.arg == "include_unreachable"]
+            ctx.check(bool(inc) and isinstance(inc[0].value, ast.Constant) and inc[0].value.value is True, "R-C09.4",
+                      f"{an.qualname}#{call_name(c)}-includes-unreachable", an.where, {"include_unreachable": ast.unparse(inc[0].value) if inc else None},
+                      "unreachable code would not be analysed (its variables are checked nevertheless)")
+        rb = [c for c in calls_in(an.node) if call_name(c) in ("run", "run_unpacked") and [dotted(a) for a in c.args] == ["self.bbs"]]
+        ctx.check(len(rb) == 2, "R-C09.4", f"{an.qualname}#runs-over-all-blocks", an.where, {"runs": [ast.unparse(c)[-40:] for c in rb]},
+                  "an analysis is not run over all blocks of the CFG")
